@@ -124,3 +124,42 @@ def forgery_race(ctx, exe, seconds=6.0, nthreads=2, label="forge"):
     finally:
         rc, rep = d.stop(timeout=30)
     return problems, rep, total
+
+
+def peercred_fault_phase(ctx, label="pcfault"):
+    """the kernel's identity lookup (SO_PEERCRED) fails for a decoding client: no restricted credential - in particular none
+    restricted to uid 0 / gid 0, the identity a zeroed message would carry - may be disclosed on a guessed identity.
+    Returns (problems, sanitizer report, n cases)."""
+    import os, vlib, credcorr
+    exe, err = rig.build_daemon(ctx, name="munged-" + label, san="address",
+                                extra_src=[os.path.join(vlib.HARNESS, "peercred_fault.c")], wraps=["getsockopt"])
+    if exe is None:
+        return [{"why": "munged does not build with the identity-fault shim: " + err[-300:]}], "", 0
+    flag = os.path.join(ctx.tmp, label + "-flag")
+    d = rig.Daemon(ctx, exe, tag=label, nthreads=2, env={"VERIF_PEERCRED_FAULT": flag})
+    if not d.start():
+        return [{"why": "daemon does not start (%s)" % label}], "", 0
+    probs, n = [], 0
+    goods = []
+    for (au, ag) in ((0, ANY), (ANY, 0), (0, 0), (77, ANY), (ANY, 88)):
+        g_, st = rig.encode(d.sock, uid=31, gid=32, auth_uid=au, auth_gid=ag, data=b"restricted payload")
+        if g_ and g_["error_num"] == 0:
+            goods.append((au, ag, g_["data"]))
+    open(flag, "w").close()
+    try:
+        for (au, ag, gc) in goods:
+            for (u, g) in ((4321, 4321), (77, 88), (0, 0), (1, 0)):
+                r, st = rig.decode(d.sock, gc, uid=u, gid=g)
+                n += 1
+                ctx.count(("peercred-fault-dec", au, ag, u, g))
+                if r is not None and (r["error_num"] in (0, 15, 16, 17) or r["data_len"] != 0):
+                    probs.append({"why": "SO_PEERCRED lookup failed for the decoding client (euid=%d egid=%d), yet the credential restricted to "
+                                         "(uid %d, gid %d) was decoded for it: error %d, %d payload bytes" % (u, g, au, ag, r["error_num"], r["data_len"]),
+                                  "cred_hex": gc.hex(), "client": (u, g)})
+    finally:
+        os.unlink(flag)
+    c = rig.canary(d.sock)
+    if c:
+        probs.append({"why": "after the identity-lookup faults: " + c})
+    rc, rep = d.stop()
+    return probs, rep, n
